@@ -1983,3 +1983,265 @@ def groupIndices (expr : List Tok) (offset : Nat) : Option (Nat × List Nat × N
 end Dltype.Gen
 """
     return out
+
+
+# =====================================================================================================================
+# _postfix_from_infix, _maybe_multiaxis, expression_from_string  ->  Generated/ParseLoop.lean
+# =====================================================================================================================
+#
+# The `while current_index < len(expression)` loop is rendered with its cursor (index style, as written).  Python has no
+# recursion bound; the generated functions take the model's fuel (iterations + nesting depth) so that they are total —
+# `Proofs/Fuel.lean` shows that `tokens + 1` is never exhausted.
+
+PL_HEADER = """/-- `expression[a:b]` -/
+def slice (l : List Tok) (a b : Nat) : List Tok := (l.drop a).take (b - a)
+
+/-- the token is an operator of the given set / the opening parenthesis (fixed text over the regenerated sets) -/
+def tokInSet (set : List String) : Tok → Bool
+  | .bin o => set.contains (opNameP (.bin o))
+  | .fn f => set.contains (opNameP (.fn f))
+  | _ => false
+
+/-- the operator a token stands for (`current_op = token`), `none` for `(` -/
+def tokOp : Tok → Option Op
+  | .bin o => some (.bin o)
+  | .fn f => some (.fn f)
+  | _ => none
+
+def tokPName : Tok → String
+  | .bin o => opNameP (.bin o)
+  | .fn f => opNameP (.fn f)
+  | .lp => "LPAREN"
+  | _ => ""
+
+"""
+
+
+def gen_parseloop(lib_dir: str, header: str) -> str:
+    with open(os.path.join(lib_dir, "_parser.py")) as fh:
+        mod = ast.parse(fh.read(), filename="_parser.py")
+
+    def fn(name):
+        f = next((n for n in mod.body if isinstance(n, ast.FunctionDef) and n.name == name), None)
+        if f is None:
+            raise TErr(f"{name} not found")
+        return f
+
+    def only_raise_syntax(stmts) -> bool:
+        inner = [x for x in stmts if not (isinstance(x, ast.Assign) and isinstance(x.value, (ast.Constant, ast.JoinedStr)))]
+        return len(inner) == 1 and isinstance(inner[0], ast.Raise) and _src(inner[0].exc).startswith("SyntaxError")
+
+    # ---- _maybe_multiaxis -----------------------------------------------------------------------------------------
+    f = fn("_maybe_multiaxis")
+    b = _strip(f.body)
+    if not (len(b) == 3 and isinstance(b[0], ast.If) and isinstance(b[1], ast.If) and _src(b[2]) == "return None"
+            and _src(b[0].test) == "len(expression) == 1 and expression[0] == _DLTypeModifier.ANONYMOUS_MULTIAXIS.value"
+            and [_src(x) for x in b[0].body] == ["return DLTypeDimensionExpression(identifier, [], is_anonymous=True)"] and not b[0].orelse
+            and _src(b[1].test) == "len(expression) == 2 and expression[0] == _DLTypeOperator.MUL and isinstance(expression[1], str)" and not b[1].orelse
+            and len(b[1].body) == 2 and isinstance(b[1].body[0], ast.If) and _src(b[1].body[0].test) == "not _VALID_IDENTIFIER_RX.match(expression[1])"
+            and only_raise_syntax(b[1].body[0].body) and not b[1].body[0].orelse
+            and _src(b[1].body[1]) == "return DLTypeDimensionExpression(expression[1], [expression[1]], is_named_multiaxis=True)"):
+        raise TErr("_maybe_multiaxis: statements: " + " ; ".join(_src(x)[:80] for x in b))
+
+    # ---- _postfix_from_infix --------------------------------------------------------------------------------------
+    g = fn("_postfix_from_infix")
+    gb = [s for s in _strip(g.body) if not (isinstance(s, ast.Expr) and isinstance(s.value, ast.Call) and _src(s.value.func).startswith("_logger."))]
+    if not (isinstance(gb[0], ast.If) and _src(gb[0].test) == "not expression" and only_raise_syntax(gb[0].body) and not gb[0].orelse):
+        raise TErr("_postfix_from_infix: the empty-expression test")
+    if _src(gb[1]) != "if (maybe_multiaxis := _maybe_multiaxis(identifier, expression)):\n    return maybe_multiaxis":
+        raise TErr(f"_postfix_from_infix: `{_src(gb[1])[:100]}`")
+    inits = [_src(s) for s in gb[2:6]]
+    if inits != ["scope_vars: set[str] = set()", "stack: list[str | _DLTypeOperator] = []", "postfix: list[str | int | _DLTypeOperator] = []", "current_index = 0"]:
+        raise TErr("_postfix_from_infix: initialisations: " + " ; ".join(inits))
+    w = gb[6]
+    if not (isinstance(w, ast.While) and _src(w.test) == "current_index < len(expression)" and not w.orelse and _src(w.body[0]) == "token = expression[current_index]" and len(w.body) == 2):
+        raise TErr("_postfix_from_infix: the main loop")
+    if [_src(s) for s in gb[7:]] != ["while stack:\n    postfix.append(stack.pop())", "return DLTypeDimensionExpression(identifier, postfix)"]:
+        raise TErr("_postfix_from_infix: statements after the main loop: " + " ; ".join(_src(s)[:60] for s in gb[7:]))
+    tests = {
+        "isinstance(token, int)": "INT",
+        "token in _infix_operators": "INFIX",
+        "token in _functional_operators or token == _DLTypeGroupToken.LPAREN": "GROUP",
+        "isinstance(token, str) and _VALID_IDENTIFIER_RX.match(token)": "IDENT",
+    }
+    node = w.body[1]
+    branches = []
+    while isinstance(node, ast.If):
+        k = tests.get(_src(node.test))
+        if k is None:
+            raise TErr(f"_postfix_from_infix: branch test `{_src(node.test)}`")
+        branches.append((k, node.body))
+        if len(node.orelse) == 1 and isinstance(node.orelse[0], ast.If):
+            node = node.orelse[0]
+        else:
+            if not only_raise_syntax(node.orelse):
+                raise TErr("_postfix_from_infix: the final else does not raise SyntaxError")
+            break
+    if [k for k, _ in branches] != ["INT", "INFIX", "GROUP", "IDENT"]:
+        raise TErr("_postfix_from_infix: order of the branches: " + ", ".join(k for k, _ in branches))
+
+    # ---- expression_from_string ----------------------------------------------------------------------------------
+    e = fn("expression_from_string")
+    eb = _strip(e.body)
+    want_e = ["identifier = expression",
+              "if _DLTypeSpecifier.EQUALS.value in expression:\n    identifier, expression = expression.split(_DLTypeSpecifier.EQUALS.value, maxsplit=1)",
+              "tokenized = _tokenize_string_expr(expression)", "return _postfix_from_infix(identifier, tokenized)"]
+    if not (len(eb) == 5 and isinstance(eb[0], ast.If) and _src(eb[0].test) == "not expression" and only_raise_syntax(eb[0].body) and not eb[0].orelse
+            and [_src(x) for x in eb[1:]] == want_e):
+        raise TErr("expression_from_string: statements: " + " ; ".join(_src(x)[:80] for x in eb))
+
+    REC = "pfiLoop fuel identifier expression current_index stack out"
+
+    def simple(stmts, tokpat) -> str:
+        """statements of the INT / INFIX / IDENT branches"""
+        lines = []
+        for s in stmts:
+            t = _src(s)
+            if t == "postfix.append(token)":
+                lines.append(f"let out := out ++ [{tokpat}]")
+            elif t == "current_index += 1":
+                lines.append("let current_index := current_index + 1")
+            elif t == "current_op = token":
+                pass
+            elif t == "_flush_op_by_precedence(stack, postfix, current_op)":
+                lines.append("let (stack, out) := flushLoop (tokPName token) stack out")
+            elif t == "stack.append(current_op)":
+                lines.append("let stack := op :: stack")
+            elif t == "scope_vars.add(token)":
+                pass
+            else:
+                raise TErr(f"_postfix_from_infix: statement `{t}`")
+        return "\n        ".join(lines + [REC])
+
+    int_b = simple(branches[0][1], ".int n")
+    infix_b = simple(branches[1][1], "")
+    ident_b = simple(branches[3][1], ".str s")
+
+    # the GROUP branch
+    gs = [s for s in branches[2][1] if not isinstance(s, ast.Assert)]
+    exp = ["current_op = token", "_flush_op_by_precedence(stack, postfix, current_op)",
+           "lparen, comma_indices, rparen = _get_group_indices(expression[current_index:], current_index)"]
+    if [_src(s) for s in gs[:3]] != exp:
+        raise TErr("_postfix_from_infix: start of the group branch: " + " ; ".join(_src(s)[:70] for s in gs[:3]))
+    arity = {
+        "token in _binary_functions and len(comma_indices) != 1": "(tokInSet binaryFunctions token && decide (comma_indices.length ≠ 1))",
+        "token in _unary_functions and len(comma_indices) != 0": "(tokInSet unaryFunctions token && decide (comma_indices.length ≠ 0))",
+        "token == _DLTypeGroupToken.LPAREN and len(comma_indices) != 0": "(token == Tok.lp && decide (comma_indices.length ≠ 0))",
+    }
+    k = 3
+    ar = []
+    while k < len(gs) and isinstance(gs[k], ast.If) and _src(gs[k].test) in arity:
+        if not only_raise_syntax(gs[k].body) or gs[k].orelse:
+            raise TErr("_postfix_from_infix: an arity test does not raise SyntaxError")
+        ar.append(arity[_src(gs[k].test)])
+        k += 1
+    if len(ar) != 3:
+        raise TErr("_postfix_from_infix: the three arity tests")
+    tail = gs[k:]
+    if not (len(tail) == 4 and _src(tail[0]) == "lhs = lparen" and isinstance(tail[1], ast.For) and _src(tail[1].target) == "arg_idx" and _src(tail[1].iter) == "[*comma_indices, rparen]"
+            and _src(tail[2]) == "if current_op in _functional_operators:\n    stack.append(current_op)" and _src(tail[3]) == "current_index = rparen + 1"):
+        raise TErr("_postfix_from_infix: end of the group branch: " + " ; ".join(_src(s)[:70] for s in tail))
+    lb = [_src(s) for s in tail[1].body]
+    if lb != ["inner_expr = _postfix_from_infix(f'{identifier}[{arg_idx}]', expression[lhs + 1:arg_idx])", "postfix.extend(inner_expr.parsed_expression)",
+              "scope_vars.update((exp for exp in inner_expr.parsed_expression if isinstance(exp, str)))", "lhs = arg_idx"]:
+        raise TErr("_postfix_from_infix: the loop over the arguments: " + " ; ".join(x[:80] for x in lb))
+
+    out = header
+    out += ("import DltypeModel.Parser\nimport DltypeModel.Context\nimport DltypeModel.Generated.ParserTables\nimport DltypeModel.Generated.ParseHelpers\nimport DltypeModel.Generated.DimFlags\nimport DltypeModel.Generated.TokLoop\n"
+            "set_option linter.unusedVariables false\nnamespace Dltype.Gen\nopen Dltype\n\n")
+    out += PL_HEADER
+    out += """/-- `DLTypeDimensionExpression(identifier, postfix)`: raises SyntaxError exactly when the regenerated self-reference test fires -/
+def mkDimGen (identifier : Name) (post : List PItem) : Except ParseErr DimExpr :=
+  let d : DimExpr := { identifier, post }
+  if selfRef d then .error .syntax else .ok d
+
+/-- `_maybe_multiaxis(identifier, expression)`: `.ok none` = returns None -/
+def maybeMultiaxis (identifier : Name) (expression : List Tok) : Except ParseErr (Option DimExpr) :=
+  match expression with
+  | [.str s] => if s = kwEllipsis then .ok (some { identifier, post := [], isAnonymous := true }) else .ok none
+  | [.bin .mul, .str n] => if !isIdent n then .error .syntax else .ok (some { identifier := n, post := [.str n], isNamedMultiaxis := true })
+  | _ => .ok none
+
+/-- `_postfix_from_infix(identifier, expression)` given its own main loop (so that the recursion on the arguments is the loop's) -/
+def pfiWith (loopF : Name → List Tok → Except ParseErr (List PItem)) (identifier : Name) (expression : List Tok) : Except ParseErr DimExpr :=
+  if expression.isEmpty then .error .syntax else
+  match maybeMultiaxis identifier expression with
+  | .error e => .error e
+  | .ok (some d) => .ok d
+  | .ok none =>
+    match loopF identifier expression with
+    | .error e => .error e
+    | .ok post => mkDimGen identifier post
+
+/-- loop skeleton (fixed text): `for arg_idx in [*comma_indices, rparen]` with the running `lhs` -/
+def argLoop (inner : Name → List Tok → Except ParseErr DimExpr) (identifier : Name) (expression : List Tok) :
+    Nat → List Nat → List PItem → Except ParseErr (List PItem)
+  | _, [], out => .ok out
+  | lhs, arg_idx :: more, out =>
+    match inner (identifier ++ ['['] ++ natStr arg_idx ++ [']']) (slice expression (lhs + 1) arg_idx) with
+    | .error e => .error e
+    | .ok inner_expr => argLoop inner identifier expression arg_idx more (out ++ inner_expr.post)
+
+"""
+    def ind(text, n):
+        return text.replace("\n        ", "\n" + " " * n)
+
+    out += f"""/-- the `while current_index < len(expression)` loop of `_postfix_from_infix` and the final `while stack: postfix.append(stack.pop())` -/
+def pfiLoop : Nat → Name → List Tok → Nat → List Op → List PItem → Except ParseErr (List PItem)
+  | 0, _, _, _, _, _ => .error .fuel
+  | fuel + 1, identifier, expression, current_index, stack, out =>
+    if decide (current_index < expression.length) then
+      (match expression[current_index]? with
+       | none => .error .syntax
+       | some token =>
+         (match token with
+          | .int n =>
+            ({ind(int_b, 13)})
+          | _ =>
+            if tokInSet infixOperators token then
+              (match tokOp token with
+               | none => .error .syntax
+               | some op =>
+                 ({ind(infix_b, 18)}))
+            else if (tokInSet functionalOperators token || token == Tok.lp) then
+              (let (stack, out) := flushLoop (tokPName token) stack out
+               match groupIndices (expression.drop current_index) current_index with
+               | none => .error .syntax
+               | some (lparen, comma_indices, rparen) =>
+                 if {ar[0]} then .error .syntax else
+                 if {ar[1]} then .error .syntax else
+                 if {ar[2]} then .error .syntax else
+                 (match argLoop (pfiWith (fun id s => pfiLoop fuel id s 0 [] [])) identifier expression lparen (comma_indices ++ [rparen]) out with
+                  | .error e => .error e
+                  | .ok out =>
+                    (let stack := if tokInSet functionalOperators token then (match tokOp token with | some op => op :: stack | none => stack) else stack
+                     let current_index := rparen + 1
+                     {REC})))
+            else
+              (match token with
+               | .str s =>
+                 if isIdent s then
+                   ({ind(ident_b, 20)})
+                 else .error .syntax
+               | _ => .error .syntax)))
+    else .ok (out ++ stack.map PItem.op)
+
+/-- `_postfix_from_infix(identifier, expression)` at top level (fuel = the model's bound) -/
+def pfiTop (identifier : Name) (expression : List Tok) : Except ParseErr DimExpr :=
+  pfiWith (fun id s => pfiLoop (s.length + 1) id s 0 [] []) identifier expression
+
+/-- `s.split("=", maxsplit=1)` for a string that contains `=` -/
+def splitFirstEq (s : List Char) : Name × List Char := (s.takeWhile (· ≠ '='), (s.dropWhile (· ≠ '=')).drop 1)
+
+/-- `expression_from_string(expression)` -/
+def parseDimGen (expression : List Char) : Except ParseErr DimExpr :=
+  if expression.isEmpty then .error .syntax else
+  let identifier := expression
+  let (identifier, expression) := if expression.contains '=' then splitFirstEq expression else (identifier, expression)
+  match tokenize expression with
+  | .error e => .error e
+  | .ok tokenized => pfiTop identifier tokenized
+
+end Dltype.Gen
+"""
+    return out
